@@ -53,6 +53,18 @@ pub struct D1;
 #[entrait(ref)]
 impl DynImpl for D1 { fn dy(deps: &impl Marker, a: u8, b: u8) -> u16 { rec(format!("D1::dy {a} {b}")); deps.mark() + a as u16 * 16 + b as u16 } }
 
+// an impl block whose self type is not a plain path, next to a free function with the method's name:
+// the delegating call has to be `Self::st3(..)`, not `st3(..)`
+#[entrait(Static3Impl, delegate_by = SelectStatic3)]
+pub trait Static3 { fn st3(&self, a: u8, b: u8) -> u16; }
+#[allow(dead_code)]
+fn st3<D>(_deps: &D, a: u8, b: u8) -> u16 { rec(format!("free st3 {a} {b}")); 0 }
+pub struct S3;
+#[entrait]
+#[allow(unused_parens)]
+impl Static3Impl for (S3) { fn st3(deps: &impl Marker, a: u8, b: u8) -> u16 { rec(format!("S3::st3 {a} {b}")); deps.mark() + a as u16 + b as u16 } }
+impl SelectStatic3<App7> for App7 { type Target = S3; }
+
 pub struct App7 { marker: u16, d: Box<dyn DynImpl<App7> + Sync> }
 impl SelectStatic<App7> for App7 { type Target = S1; }
 impl AsRef<dyn DynImpl<App7>> for App7 { fn as_ref(&self) -> &(dyn DynImpl<App7> + 'static) { &*self.d } }
@@ -82,6 +94,7 @@ fn main() {
     expect!("c07.static", app7.st(1, 2), 1018, vec!["S1::st 1 2"]);
     expect!("c07.dynamic", app7.dy(2, 1), 1033, vec!["D1::dy 2 1"]);
     expect!("c07.static.other_app", Impl::new(App7b).st(1, 2), 9003, vec!["S2::st 1 2"]);
-    println!("DELEG-PROBE cases=9 failed={bad}");
+    expect!("c07.static.paren_self_ty", app7.st3(4, 5), 1009, vec!["S3::st3 4 5"]);
+    println!("DELEG-PROBE cases=10 failed={bad}");
     std::process::exit(if bad == 0 { 0 } else { 1 });
 }
